@@ -29,9 +29,6 @@ public:
         _n = n;
         _i1 = (i1 < 0) ? (_n + i1) : (i1);
         _i2 = (i2 < 0) ? (_n + i2) : (i2);
-        const int d = std::abs(_i2 - _i1);
-        const int tm = std::abs(_m);
-        _nc = (d % tm != 0) ? (d / tm + 1) : (d / tm);
 
         if ((_i1 < 0) || (_i1 >= _n)) {
             DSPLIB_THROW("Left slice index out of range");
@@ -40,6 +37,11 @@ public:
         if ((_i2 < 0) || (_i2 > _n)) {
             DSPLIB_THROW("Right slice index out of range");
         }
+
+        //both indices are in [0, n] here, so the difference cannot overflow
+        const long long d = std::abs(_i2 - _i1);
+        const long long tm = std::abs(static_cast<long long>(_m));
+        _nc = static_cast<int>((d % tm != 0) ? (d / tm + 1) : (d / tm));
 
         if ((_m < 0) && (_i1 < _i2)) {
             DSPLIB_THROW("First index is smaller for negative step");
